@@ -2,6 +2,7 @@ package props
 
 import (
 	"fmt"
+	"strings"
 
 	"pgregory.net/rapid"
 
@@ -16,6 +17,19 @@ const ruleC15 = "failing (path, document) pairs of the C01 generators, enriched 
 func drawC15(rt *rapid.T) *Case {
 	g := gen.NewG(rt, gen.PathOpts{Funcs: true, RootOmit: true, FuncPct: 25, MinSteps: 1, LongPaths: true})
 	p := g.Path()
+	if gen.Uniform(rt, "hugename", 300) == 0 {
+		// a path of more than 64 KiB: one member name is tens of thousands of characters long.
+		// Which failure is the deepest does not depend on how much text the steps take.
+		var names []int
+		for i := range p.Steps {
+			if p.Steps[i].Kind == gen.KName {
+				names = append(names, i)
+			}
+		}
+		if len(names) > 0 {
+			p.Steps[names[gen.Uniform(rt, "hugestep", len(names))]].Key = strings.Repeat("k", 65400+gen.Uniform(rt, "hugelen", 700))
+		}
+	}
 	var r gen.Rendered
 	if gen.Uniform(rt, "styled", 4) == 0 {
 		r = gen.Render(p, gen.RapidStyle{T: rt})
@@ -62,6 +76,9 @@ func checkC15(c *Case, st *Stats) string {
 	st.Class("error:" + info.Type)
 	if msg := matchRuntimeError(res, info, c.Texts); msg != "" {
 		return msg
+	}
+	if len(c.Path) > 65536 {
+		st.Class("path:longer-than-64KiB")
 	}
 	group := c.AST.IsGroupPath() || hasGroupStep(c.AST)
 	if group {
